@@ -25,6 +25,9 @@ def sync_program(draw):
     if bare:
         cfg["seed"].append({"slot": "b1", "bare": True, "meta": draw(st.sampled_from(["config", "file"])), "kind": "calendar"})
     names = [draw(gen.member_name(".ics", fancy=False)) for _ in range(2)] + [draw(gen.member_name(".ics", fancy=True))]
+    if draw(st.integers(0, 2)) == 0:
+        # a member URL need not carry an extension (the media type comes with the request)
+        names.append(draw(st.sampled_from(["6a1c0e3e-standup", "review.v2", "noext"])))
     vnames = [draw(gen.member_name(".vcf", fancy=False)) for _ in range(3)]
     # bodies are shared between names: identical content under several names (copied contacts,
     # an event moved to another name after its old holder changed) must be reported like any other change
